@@ -694,8 +694,14 @@ func run(s *kernel.Sim, prop, cfg string) {
 		"doh":        world.NewServer("doh", agd.ProtoDoH, "198.18.0.4:443", false),
 		"doq":        world.NewServer("doq", agd.ProtoDoQ, "198.18.0.5:853", false),
 		"dnscrypt":   world.NewServer("dnscrypt", agd.ProtoDNSCrypt, "198.18.0.6:5443", true),
+		// Encrypted servers with the settings of the address channels: these
+		// are channels of plain DNS only.
+		"dot-linked": world.NewServer("dot-linked", agd.ProtoDoT, "198.18.0.7:853", true),
+		"doh-linked": world.NewServer("doh-linked", agd.ProtoDoH, "198.18.0.8:443", true),
+		"doq-iface":  world.NewServerIfaceProto("doq-iface", agd.ProtoDoQ, "198.18.10.0/24", 853, true),
+		"dot-iface":  world.NewServerIfaceProto("dot-iface", agd.ProtoDoT, "198.18.10.0/24", 853, false),
 	}
-	kinds := []string{"dns-linked", "dns-plain", "dns-iface", "dns-iface2", "dot", "doh", "doq", "dnscrypt"}
+	kinds := []string{"dns-linked", "dns-plain", "dns-iface", "dns-iface2", "dot", "doh", "doq", "dnscrypt", "dot-linked", "doh-linked", "doq-iface", "dot-iface"}
 	var srvList []*agd.Server
 	for _, k := range kinds {
 		srvList = append(srvList, servers[k])
@@ -1091,6 +1097,9 @@ func genRequest(t *kernel.Tape, u *universe, servers map[string]*agd.Server, kin
 		if t.Chance(1, 4, "cpe-on-tls") {
 			r.cpeID = kernel.Pick(t, ids[1:6], "cpe")
 		}
+		if r.srv.BindsToInterfaces() {
+			r.local = netip.AddrPortFrom(netip.MustParseAddr(kernel.Pick(t, append([]string{"198.18.10.200", "198.18.10.1"}, dedicatedIPs...), "local-addr-tls")), 853)
+		}
 	case agd.ProtoDNS:
 		if t.Chance(1, 3, "cpe") && id != "bad id!" {
 			// The EDNS option is compared as is; case variants are exercised
@@ -1348,5 +1357,5 @@ func checkC15(s *kernel.Sim, i int, r *request, u *universe, who string, sn *see
 }
 
 func TestWorker(t *testing.T) {
-	kernel.WorkerMain(t, &kernel.Engine{Name: "sysim", Run: run})
+	kernel.WorkerMain(t, &kernel.Engine{Name: "sysim", Run: run, IsolatePools: func(prop string) bool { return prop == "C07" }})
 }
